@@ -8,6 +8,10 @@
 //	          of an identifier hygiene pool (incl. template-style names)
 //	arbitrary every string of length <= L over an 18 character alphabet
 //	nearmiss  every string at edit distance 1 from a corpus of valid signatures
+//	arity     struct arity near misses: every struct annotation of the hygiene
+//	          pool and of a generated set of struct signatures (alone, nested in
+//	          list / map / tuple / struct) with its member names or member types
+//	          shortened or extended so that their counts differ
 //
 // Oracle for a grammar signature s with sigen tree t (sentence 1 of the
 // property): Parse(s) succeeds, Signature() == s, SignatureIDL() equals
@@ -475,6 +479,126 @@ func nearMiss(corpus []string, emit func(string) bool) {
 	}
 }
 
+// sigWith prints t with the text of the node target replaced by repl.
+func sigWith(t, target *sigen.T, repl string) string {
+	if t == target {
+		return repl
+	}
+	var b strings.Builder
+	switch t.Kind {
+	case sigen.Atom:
+		b.WriteByte(t.Atom)
+	case sigen.List:
+		b.WriteString("[" + sigWith(t.Elem[0], target, repl) + "]")
+	case sigen.Map:
+		b.WriteString("{" + sigWith(t.Elem[0], target, repl) + sigWith(t.Elem[1], target, repl) + "}")
+	case sigen.Tuple, sigen.Struct:
+		b.WriteByte('(')
+		for _, e := range t.Elem {
+			b.WriteString(sigWith(e, target, repl))
+		}
+		b.WriteByte(')')
+		if t.Kind == sigen.Struct {
+			b.WriteString("<" + t.Name)
+			for _, f := range t.Fields {
+				b.WriteString("," + f)
+			}
+			b.WriteByte('>')
+		}
+	}
+	return b.String()
+}
+
+// arityVariants lists the texts of the struct node x in which the number of
+// member names differs from the number of member types: the last k names
+// dropped (k = 1..all; k = all leaves the bare "(T...)<Name>"), one name
+// appended, the last k member types dropped (k = 1..all), one member type
+// appended. "()<Name>" (no type, no name) is a valid empty struct and is
+// never among them.
+func arityVariants(x *sigen.T) []string {
+	n := len(x.Elem)
+	types := make([]string, n)
+	for i, e := range x.Elem {
+		types[i] = e.Sig()
+	}
+	mk := func(types, names []string) string {
+		s := "(" + strings.Join(types, "") + ")<" + x.Name
+		for _, f := range names {
+			s += "," + f
+		}
+		return s + ">"
+	}
+	var out []string
+	for k := 1; k <= n; k++ {
+		out = append(out, mk(types, x.Fields[:n-k]))
+	}
+	out = append(out, mk(types, append(append([]string(nil), x.Fields...), "zz")))
+	for k := 1; k <= n; k++ {
+		out = append(out, mk(types[:n-k], x.Fields))
+	}
+	out = append(out, mk(append(append([]string(nil), types...), "i"), x.Fields))
+	return out
+}
+
+// arityBases enumerates the valid signatures whose struct annotations are
+// damaged by the arity family: the whole hygiene family, every signature of
+// Sig(2,2) over reduced atoms that holds a struct (so: structs alone, inside a
+// list, a map key or value, a tuple, another struct, and holding those), and
+// the structs of width 0..wide over {i,s} alone and wrapped once.
+func arityBases(g sigen.Gen, wide int, emit func(*sigen.T) bool) {
+	stop := false
+	out := func(t *sigen.T) bool {
+		if !stop && !emit(t) {
+			stop = true
+		}
+		return !stop
+	}
+	hygiene(out)
+	g.Each(2, func(t *sigen.T) {
+		if !stop && len(t.Structs()) > 0 {
+			out(t)
+		}
+	})
+	gw := sigen.Default(wide)
+	gw.Outer = "is"
+	i, s := sigen.A('i'), sigen.A('s')
+	gw.Each(1, func(t *sigen.T) {
+		if stop || t.Kind != sigen.Struct {
+			return
+		}
+		for _, w := range []*sigen.T{t, sigen.L(t), sigen.M(s, t), sigen.M(t, s), sigen.Tu(t, i), sigen.Tu(i, t), sigen.St("Bb", []string{"k", "l"}, t, i)} {
+			if !out(w) {
+				return
+			}
+		}
+	})
+}
+
+// arityNearMiss emits, once each, every string obtained from a base signature
+// by replacing one of its struct nodes with one of its arity variants. It
+// returns the number of bases and of (base, struct node) pairs visited.
+func arityNearMiss(g sigen.Gen, wide int, emit func(string) bool) (bases, nodes int) {
+	seen := map[string]struct{}{}
+	arityBases(g, wide, func(t *sigen.T) bool {
+		bases++
+		for _, x := range t.Structs() {
+			nodes++
+			for _, v := range arityVariants(x) {
+				m := sigWith(t, x, v)
+				if _, dup := seen[m]; dup {
+					continue
+				}
+				seen[m] = struct{}{}
+				if !emit(m) {
+					return false
+				}
+			}
+		}
+		return true
+	})
+	return
+}
+
 // ---------------------------------------------------------------- driver
 
 type witness struct {
@@ -694,6 +818,22 @@ func main() {
 	corpus = append(corpus, "(i)<List<double>,a>", "[(is)<A,a,b>]", "{s(i)<A,a>}", "((i)<A,a>i)<B,a,b>")
 	runFam("nearmiss", fmt.Sprintf("every string at edit distance 1 (delete / substitute / insert over %q) from each of %d valid signatures (Sig(1,2) over the atoms %s + 4 named shapes)", arbAlphabet+"d", len(corpus), gc.Outer),
 		func(emit func(kase) bool) { nearMiss(corpus, func(x string) bool { return emit(kase{x: x}) }) })
+	// family 3b: struct arity near misses
+	ga := sigen.Default(2)
+	ga.Outer, ga.Inner = "is", "is"
+	wide := 3
+	if tier == "thorough" {
+		ga.Outer, ga.Inner = "isbmC", "ism"
+		wide = 4
+	}
+	arityBasesN, arityNodesN := 0, 0
+	runFam("arity", fmt.Sprintf("struct arity near misses: for every struct node of every base signature - the hygiene family, every signature of Sig(2,2) holding a struct (leaves at distance <= 1 over %s, deeper over %s), "+
+		"the structs of width 0..%d over is alone and inside a list, a map (key, value), a tuple (first, last) and a struct - the strings in which that struct's annotation has "+
+		"its last k member names dropped (k = 1..all, i.e. down to the bare (T...)<Name>), one member name appended, its last k member types dropped (k = 1..all), one member type appended; duplicates removed; "+
+		"judged as arbitrary strings (none is a signature: a struct needs as many names as types)", ga.Outer, ga.Inner, wide),
+		func(emit func(kase) bool) {
+			arityBasesN, arityNodesN = arityNearMiss(ga, wide, func(x string) bool { return emit(kase{x: x}) })
+		})
 	// family 4: arbitrary strings
 	maxLen := 4
 	if tier == "thorough" {
@@ -840,7 +980,9 @@ func main() {
 		"distinct_nontrivial": len(total.distinct) + len(total.accepted),
 		"rule": "every element of each family's stated universe is generated and judged. distinct_nontrivial = number of distinct (signature shape, outcome class) pairs among the generated COMPOSITE signatures " +
 			"(shape = constructor tree with atoms reduced to int/flt/bool/str/any/obj/unk/void and names to plain/lower/+_9/template; outcome = ok or first failed entry/clause) " +
-			"+ number of distinct printed forms among the arbitrary / near-miss strings the parser ACCEPTED (rejected strings and bare atoms are counted as trivial)",
+			"+ number of distinct printed forms among the arbitrary / near-miss / struct-arity-near-miss strings the parser ACCEPTED (rejected strings and bare atoms are counted as trivial). " +
+			"The arbitrary, nearmiss and arity families are judged by sentence 2 of the property: rejected with an error, or accepted with a printed form that is a fixed point and equals the input (blanks apart); never a panic. " +
+			"arity = the struct annotations of valid signatures with the number of member names made different from the number of member types (names emptied / shortened / extended, types shortened / extended), at every struct position",
 		"distinct_shape_outcome_pairs":    len(total.distinct),
 		"distinct_accepted_printed_forms": len(total.accepted),
 		"samples":                         sampleList,
@@ -848,6 +990,7 @@ func main() {
 		"families":                        famCov,
 		"histories_reparse_after_register": map[string]interface{}{"evaluations": histEvals, "distinct_pairs": histDistinct,
 			"universe": "all ordered pairs of one-member structs over the struct-name pool x {i,s} member types (same name with different members included), alone and inside a tuple: Parse both, RegisterTo one TypeSet and GenerateType, then Parse both again"},
+		"arity_near_miss":        map[string]interface{}{"base_signatures": arityBasesN, "struct_nodes_damaged": arityNodesN, "distinct_strings_judged": total.perFamily["arity"]},
 		"per_family_evaluations": total.perFamily,
 		"skipped_slow":           total.slow,
 		"workers":                workers,
